@@ -13,10 +13,11 @@ LEVEL_TEXT = ("Lean model of href.relative / href.parent and of the page hierarc
               "lists, serving menus) over an abstract source tree; theorem: resolving relative(from, to) against from by RFC 3986 gives to for all absolute "
               "paths of file-like pages; the model's page set and every page's generated links are compared with real generated sites; every link of "
               "every page of generated sites (including authored links in every spelling) is resolved and checked by the crawl oracle.")
-LEVEL_NOTE = ("Partial: lxml's rewrite_links, Jinja2 and the file system are outside the model; liveness of authored links and reachability rest on the crawl "
-              "oracle over generated trees (search). Known findings: names with URL-significant characters give dead generated links; a scaled page "
-              "linking to the home readme resolves to a directory. Trusted: Lean kernel, model as far as correspondence exercises it.")
-LEAN_MODULES = ["RecipeGrid.Props.C14"]
+LEVEL_NOTE = ("Partial: lxml's rewrite_links, Jinja2 and the file system are outside the model; liveness of authored links rests on the crawl oracle over "
+              "generated trees (search). Liveness of every generated link (every_link_resolves) and reachability of every page from the home page through "
+              "generated links (every_page_reachable, reachable_iff_page) are theorems about the page-hierarchy model for all source trees with "
+              "admissible names. Trusted: Lean kernel, model as far as correspondence exercises it.")
+LEAN_MODULES = ["RecipeGrid.Props.C14", "RecipeGrid.Props.C14b"]
 SOURCES = ["recipe_grid/static_site/website.py", "recipe_grid/static_site/href.py", "recipe_grid/static_site/html_postprocessing.py"]
 RULE = ("source trees of depth <= 3, fan-out <= 3, names with spaces, camel case, Unicode (correspondence) and additionally # ? % & ' \" (oracle), with and "
         "without readme files (every readme file name), scalable and unscalable recipes, authored links among recipes / directories / readmes / assets in "
